@@ -147,7 +147,15 @@ func (e *Env) Bubble(f func()) (err error) {
 	defer func() {
 		if x := recover(); x != nil {
 			if err == nil {
-				err = fmt.Errorf("bubble panic: %v\n%s", x, debug.Stack())
+				buf := make([]byte, 1<<20)
+				buf = buf[:runtime.Stack(buf, true)]
+				var bl []string
+				for _, g := range strings.Split(string(buf), "\n\n") {
+					if strings.Contains(g, "synctest bubble") {
+						bl = append(bl, g)
+					}
+				}
+				err = fmt.Errorf("bubble panic: %v\n%s", x, trunc(strings.Join(bl, "\n\n"), 14000))
 			}
 		}
 	}()
@@ -159,8 +167,26 @@ func (e *Env) Bubble(f func()) (err error) {
 			}
 		}()
 		s := time.Now()
+		sim.ResetAbort()
+		done := make(chan struct{})
+		var wdErr error
+		go func() { // watchdog: fires only if everything else is blocked for good
+			select {
+			case <-done:
+			case <-time.After(100000 * time.Hour):
+				buf := make([]byte, 1<<20)
+				buf = buf[:runtime.Stack(buf, true)]
+				wdErr = fmt.Errorf("simulation stuck: every goroutine blocked, no timer pending\n%s", trunc(string(buf), 12000))
+				close(sim.Abort)
+			}
+		}()
 		f()
+		close(done)
 		fake = time.Since(s)
+		if wdErr != nil {
+			err = wdErr
+			fake = 0
+		}
 		// leak check: everything started inside the bubble must be gone
 		synctest.Wait()
 		buf := make([]byte, 1<<20)
